@@ -66,6 +66,8 @@ THEOREMS = [
     "IrVerif.Clone.C13_value_map_bijection",
     "IrVerif.Clone.C13_function_clone_succeeds",
     "IrVerif.Clone.C13_function_clone_raises_iff",
+    "IrVerif.Clone.C13_closed_sharding_any",
+    "IrVerif.Clone.C13_closed_sharding_any_model",
 ]
 ASSUMPTIONS = [
     "hand-written model IrVerif.Clone of _cloner.py / the clone entry points / the constructors they call; tied to the "
@@ -104,10 +106,14 @@ ASSUMPTIONS = [
     "initializer names not distinct) carry no claim and their share is published; Function.clone has its own verdict "
     "(funcVerdict: body + graph-valued attribute defaults under one value map, C13_function_clone_*); Model.clone has no "
     "walker theorem (outcome correspondence only)",
-    "C13_closed_sharding assumes devLocalW (every sharding spec targets an input or output of its own node), evaluated on "
-    "every abstracted heap; nothing in the Node constructor enforces it: for a non-local spec the cloner (since the fix of "
-    "D350) leaves the clone's spec on the ORIGINAL's value (finding D340, proposed_fixes/D340.diff); the generator family "
-    "for non-local specs (NONLOCAL_SPEC_P) is switched off until D340 is fixed or recorded",
+    "C13_closed_sharding (specs stay local to the cloned node) assumes devLocalW (every sharding spec targets an input or "
+    "output of its own node), evaluated on every abstracted heap (share published; false for the generated non-local "
+    "specs); C13_closed_sharding_any needs no such hypothesis for allow_outer_scope_values=False: since the fixes of D340 / "
+    "D341 a spec on another value follows the cloner's value map and a spec on a value outside the cloned region raises; "
+    "the model raises before allocating the node cell where Python raises after creating the node object (the abandoned "
+    "node is garbage in both; with allow=False it consumes no pre-existing value); a spec on a value that a LATER node of "
+    "the cloned region defines is not generated (it is not in the value map yet when its node is cloned: allow=False "
+    "raises, allow=True keeps the spec on the original's value - reported as D342)",
     "the frame theorems assume the heap before cloning has no dangling pointers and every const_value is a tensor "
     "object (wellFormed), C13_failed_clone_no_residue that usage records name existing cells (usesBounded); both are "
     "checked on every abstracted real heap by the driver",
@@ -136,11 +142,11 @@ import onnx_ir as ir  # noqa: E402
 # --------------------------------------------------------------------------- building real IR from a spec
 
 _DTYPES = [1, 7, 6, 10, 9, 11]  # FLOAT INT64 INT32 FLOAT16 BOOL DOUBLE
-# probability that a generated sharding spec targets a value that is NOT an input/output of its node (finding D340:
-# the cloner leaves such a spec on the original's value).  0 (set C13_NONLOCAL_SPEC_P=0.3 to switch it on) until D340
-# is fixed in /repo or recorded as known; with
-# a positive value the oracle reports `closed:sharding:own-value-of-original:*` on the unfixed code.
-NONLOCAL_SPEC_P = float(__import__("os").environ.get("C13_NONLOCAL_SPEC_P", "0") or 0)
+# probability that a node with device configurations gets a sharding spec on a value that is NOT one of its inputs /
+# outputs (findings D340 / D341, fixed: such a spec follows the cloner's value map, and a spec on a value outside the
+# cloned region makes clone(allow_outer_scope_values=False) raise).  The oracle signatures
+# `closed:sharding:own-value-of-original:*` and `closed:sharding:outer-value:*` are the live regression checks.
+NONLOCAL_SPEC_P = float(__import__("os").environ.get("C13_NONLOCAL_SPEC_P", "0.2") or 0)
 
 
 def build_type(t):
@@ -795,7 +801,7 @@ def source_analysis(root):
     defined = {id(v) for v in values}
     outer = False
     for n in nodes:
-        for v in n.inputs:
+        for v in list(n.inputs) + [sp.value for c in n.device_configurations for sp in c.sharding_specs]:
             if v is not None and id(v) not in defined:
                 outer = True
     for g in graphs:
@@ -1178,8 +1184,9 @@ class SpecGen:
                 n["unname"] = True
             if self.nconfigs and rng.random() < 0.3:
                 cands = [x for x in n["inputs"] if x is not None] + [o["name"] for o in n["outs"]]
-                if NONLOCAL_SPEC_P and local and rng.random() < NONLOCAL_SPEC_P:
-                    cands = cands + [rng.choice(local)]  # a value of this graph that the node does not touch
+                if NONLOCAL_SPEC_P and (local or visible) and rng.random() < NONLOCAL_SPEC_P:
+                    # a value of this graph (or of an enclosing one) that the node does not touch
+                    cands = cands + [rng.choice(local + list(visible))]
                     n["nonlocal_spec"] = True
                 n["dev"] = []
                 for _ in range(rng.choice([1, 1, 2, 3])):
@@ -1204,7 +1211,7 @@ class SpecGen:
         if rng.random() < 0.3:
             g["opsets"] = {"": 18, "custom": 1}
         self.metas(g, 0.2)
-        if unsorted_ok and len(g["nodes"]) > 1 and rng.random() < 0.12:
+        if unsorted_ok and len(g["nodes"]) > 1 and rng.random() < 0.12 and not any(n.get("nonlocal_spec") for n in g["nodes"]):
             rng.shuffle(g["nodes"])
             g["unsorted"] = True
         return g
@@ -1257,7 +1264,40 @@ def gen_spec_failing_after_nested(rng):
             "target": {"kind": "subgraph", "name": "g2", "allow": rng.random() < 0.85}}  # fmt: skip
 
 
+def gen_spec_nonlocal_spec(rng):
+    """g1(x, y): a = Relu(x) -> va; b = Neg(va) -> vb with a sharding spec on a value that b does not touch (x, y or
+    va's sibling).  Targets: the graph / the model (the spec must follow the value map, D340) or a view of b alone (the
+    spec's value lies outside the cloned region: clone must raise, D341)."""
+    sg = SpecGen(rng, 2)
+    x, y, va, vb, vc = sg.value("x"), sg.value("x"), sg.value("v"), sg.value("v"), sg.value("v")
+    tgt = rng.choice([x["name"], y["name"], vc["name"]])
+    specs = [{"value": tgt, "device": [0, 1]}]
+    if rng.random() < 0.5:
+        specs.append({"value": rng.choice([va["name"], vb["name"]]), "device": [0, 1]})
+        rng.shuffle(specs)
+    nodes = [{"name": sg.name("n"), "op": "Relu", "inputs": [x["name"]], "outs": [va], "attrs": []},
+             {"name": sg.name("n"), "op": "Abs", "inputs": [va["name"]], "outs": [vc], "attrs": []},
+             {"name": sg.name("n"), "op": "Neg", "inputs": [va["name"]], "outs": [vb], "attrs": [], "nonlocal_spec": True,
+              "dev": [{"cfg": 0, "stage": rng.choice([None, 0]), "specs": specs}]}]  # fmt: skip
+    g1 = {"name": "g1", "inputs": [x, y], "inits": [], "nodes": nodes, "outputs": [vb["name"], vc["name"]]}
+    spec = {"ntensors": 3, "type_pool": [gen_type(rng) for _ in range(sg.ntypes)],
+            "shape_pool": [gen_shape(rng) for _ in range(sg.nshapes)], "nconfigs": 1, "ir_version": 11, "graph": g1,
+            "functions": [], "views": []}
+    r = rng.random()
+    if r < 0.5:
+        spec["views"].append({"name": "view0", "of": "g1", "nodes": [2], "inputs": [va["name"]], "inits": [],
+                              "outputs": [vb["name"]]})
+        spec["target"] = {"kind": "view", "name": "view0"}
+    elif r < 0.8:
+        spec["target"] = {"kind": "graph", "name": "g1", "allow": rng.random() < 0.3}
+    else:
+        spec["target"] = {"kind": rng.choice(["model", "functionalize"])}
+    return spec
+
+
 def gen_spec(rng, size=4):
+    if NONLOCAL_SPEC_P and rng.random() < 0.04:
+        return gen_spec_nonlocal_spec(rng)
     if rng.random() < 0.1:
         return gen_spec_failing_after_nested(rng)
     sg = SpecGen(rng, size)
@@ -1846,6 +1886,7 @@ def compare_cases(ctx: Ctx, results):
                          {"spec": spec}, oc, r["outcome"])  # fmt: skip
             continue
         if oc["r"] == "raised":
+            ctx.count(f"model_raise_why={oc.get('why')}")
             cm, _ = canon(o["world"], r["roots"])
             ci, _ = canon(r["world1"], r["roots"])
             if cm != ci:
